@@ -42,7 +42,7 @@ pub struct SchedTrace {
 }
 
 const SLOTS: usize = 4;
-const STEP_CAP: usize = 4000;
+const STEP_CAP: usize = 20000;
 
 fn content_bytes(run_tag: u64, c: u8) -> Vec<u8> {
     // Unique per run so that a leaked table entry of an earlier (violating)
@@ -78,12 +78,14 @@ impl SchedSim {
         SchedSim
     }
 
-    fn gen_shared(&self, r: &mut Rng) -> SchedTrace {
-        let n_threads = r.range(2, 4) as usize;
+    fn gen_shared(&self, r: &mut Rng, thorough: bool) -> SchedTrace {
+        // Thorough tier: one run in eight is a long random multi-thread run.
+        let long = thorough && r.chance(1, 8);
+        let n_threads = if long { r.range(3, 5) } else { r.range(2, 4) } as usize;
         let alphabet = r.range(1, 3) as u8;
         let mut threads = Vec::new();
         for _ in 0..n_threads {
-            let n_ops = r.range(2, 8) as usize;
+            let n_ops = if long { r.range(10, 30) } else { r.range(2, 8) } as usize;
             let mut ops = Vec::new();
             let mut filled = [false; SLOTS];
             for _ in 0..n_ops {
@@ -423,9 +425,9 @@ impl Engine for SchedSim {
         "schedsim"
     }
 
-    fn generate(&self, run_seed: u64, _index: u64, property: &str, _thorough: bool) -> Value {
+    fn generate(&self, run_seed: u64, _index: u64, property: &str, thorough: bool) -> Value {
         let mut r = Rng::new(run_seed);
-        let t = if property == "C12" { self.gen_uid(&mut r) } else { self.gen_shared(&mut r) };
+        let t = if property == "C12" { self.gen_uid(&mut r) } else { self.gen_shared(&mut r, thorough) };
         serde_json::to_value(&t).unwrap()
     }
 
